@@ -94,14 +94,9 @@ func cmdRandom(args []string) {
 		}
 		return id
 	}
-	// warm-up: genesis allocations are credited in block 1; then convert Quai into Qi for every key
-	head = mine(head, 0)
-	head = mine(head, 0)
-	if err := r.Fund(40); err != nil {
-		fatal(3, err)
-	}
-	for i := 0; i < 12; i++ {
-		head = mine(head, 0)
+	head, err = r.WarmUp()
+	if err != nil {
+		fatal(3, "warm-up:", err)
 	}
 	base := head
 	if *shapes != "" {
@@ -194,6 +189,8 @@ func main() {
 	switch os.Args[1] {
 	case "random":
 		cmdRandom(os.Args[2:])
+	case "crash":
+		cmdCrash(os.Args[2:])
 	default:
 		fatal(2, "unknown subcommand")
 	}
